@@ -40,7 +40,14 @@ func newServer(l limitCfg) *handler.Server {
 	srv.AddTransport(transport.SSE{})
 	srv.AddTransport(transport.MultipartMixed{})
 	// the application's upgrader also negotiates a subprotocol of its own that gqlgen does not speak
-	srv.AddTransport(transport.Websocket{Upgrader: websocket.Upgrader{Subprotocols: []string{"verif-foreign"}}})
+	srv.AddTransport(transport.Websocket{Upgrader: websocket.Upgrader{Subprotocols: []string{"verif-foreign"}},
+		// an application InitFunc that reads the client's init payload through gqlgen's own accessors
+		InitFunc: func(ctx context.Context, p transport.InitPayload) (context.Context, *transport.InitPayload, error) {
+			_ = p.Authorization()
+			_ = p.GetString("token")
+			_ = p.GetString("n")
+			return ctx, &p, nil
+		}})
 	srv.AddTransport(transport.Options{})
 	srv.AddTransport(transport.GET{})
 	srv.AddTransport(transport.POST{})
